@@ -69,7 +69,8 @@ def gen_default(rng, wild):
         pool = ['x', 'active', 'a b', '', "it's", 'C:\\dir\\file', 'ends with \\', '^\\d{4}$', 'say "hi"', 'x,y', '[b]', '#tag', '// not a comment'] \
             + (['true', 'NULL', 'a\nb', 'br{ace}'] if wild else [])
         return {'k': 'str', 'v': pick(rng, pool)}
-    pool = ['now()', 'a + b', 'gen_random_uuid()'] + (["lower('x')", 'multi\nline', '{x}'] if wild else [])
+    pool = ['now()', 'a + b', 'gen_random_uuid()', '(a) + (b)', "(now()) + (interval '1 day')", "replace(x, '\\n', ' ')", "E'\\t' || c", '(x)',
+            "lower('x')"] + (['multi\nline', '{x}'] if wild else [])
     return {'k': 'expr', 'v': pick(rng, pool)}
 
 
@@ -104,7 +105,7 @@ def gen_index(rng, wild, ncols):
         if r < 0.75:
             subs.append({'col': rng.randrange(ncols)})
         elif r < 0.95 or not wild:
-            subs.append({'expr': pick(rng, ['lower(name)', 'a*2', 'id + 1'])})
+            subs.append({'expr': pick(rng, ['lower(name)', 'a*2', 'id + 1', '(lower(a)) || (lower(b))', "split_part(c, '\\n', 1)", '(id)'])})
         else:
             subs.append({'raw': pick(rng, ['rawsubj', '"quoted raw"'])})
     return {
